@@ -22,7 +22,8 @@ ASSUMPTIONS = [
     "optimisation levels whose optimised module prints to the same IR text as an already compiled level of the same batch are counted as covered by that compilation",
     "failures inside ppci.api.optimize are the optimiser's (C02/C03) and are counted as unclassified here, except CPU time-outs",
     "ir_to_object is called with its defaults (no debug info, opt='speed'), as ppci.api.cc does",
-    "keys: riscv:rvc failures that reproduce identically on riscv are keyed under riscv (shared base pattern table)",
+    "keys: riscv:rvc failures that reproduce identically on riscv are keyed under riscv (shared base pattern table); failures after register "
+    "allocation with no target-specific frame on the stack and no instruction involved are keyed under 'any'",
 ]
 CLAIM = {"text": "inside the enumerated bound no supported IR module makes ir_to_object fail on the five mature target configurations at any optimisation level, apart from listed known findings",
          "note": "trusted: irgen/irgen29 build well-formed IR (checked by ppci's verifier); success means 'returns an object', correctness of the code is C04/C05",
@@ -286,7 +287,10 @@ def key_of(target, fail):
     feat = feature_of(fail.exc)
     if isinstance(fail.exc, CpuTimeout):
         return "%s/%s/CpuTimeout" % (FAMILY[target], stage)
-    k = exc_key("%s/%s" % (FAMILY[target], stage), fail.exc)
+    fam = FAMILY[target]
+    if not feat and stage in ("emit", "data", "codegen") and not any(re.search(r"/ppci/arch/\w+/", f.f_code.co_filename) for f in _frames(fail.exc)):
+        fam = "any"     # no target-specific code on the stack and no instruction involved: target-independent part of the code generator
+    k = exc_key("%s/%s" % (fam, stage), fail.exc)
     return k + ("/" + feat if feat else "")
 
 
@@ -508,5 +512,6 @@ def replay(w):
     except Failure as fail:
         if fail.stage == "optimize" and not _is_timeout(fail.exc):
             return False, "optimize raised %r (not judged by C29)" % (fail.exc,)
-        return True, "%s: %s -O%s raised %s: %s" % (key_of(target, fail), target, level, type(fail.exc).__name__, str(fail.exc)[:200])
+        key = full_key(target, fail, cases[0]) if len(cases) == 1 else key_of(target, fail)
+        return True, "%s: %s -O%s raised %s: %s" % (key, target, level, type(fail.exc).__name__, str(fail.exc)[:200])
     return False, "ir_to_object returned (%s, code size %s)" % (st, info)
